@@ -18,6 +18,9 @@ struct cls_nt {       // converts to every integer type, noexcept
 struct cls_throw {    // converts to every integer type, may throw
   template <class T, class = std::enable_if_t<std::is_integral<T>::value>> operator T() const { return T(1); }
 };
+struct cls_expl {     // EXPLICIT noexcept conversion to every integer type: index_type is nothrow-constructible from it, but it is not convertible
+  template <class T, class = std::enable_if_t<std::is_integral<T>::value>> explicit constexpr operator T() const noexcept { return T(1); }
+};
 struct cls_none {};
 
 // a user accessor: no default constructor, no converting constructor
